@@ -222,6 +222,27 @@ func AllSourceLabels(sc *Scenario) []Label {
 	return out
 }
 
+// ProducerLabels is AllSourceLabels with one label per PRODUCER: a generator
+// counts once for every converter it emits (one per subtype among the values
+// it is shown), since two converters emitted by one generator are two
+// candidate routes. Premises of the kind "every parameter has a single
+// candidate" are judged on this list.
+func ProducerLabels(sc *Scenario) []Label {
+	var out []Label
+	for _, in := range EffectiveInputs(sc.Inputs) {
+		l := in.L
+		l.Dyn = l.Type
+		out = append(out, l)
+	}
+	for i := range sc.Convs {
+		out = append(out, sc.Convs[i].Out...)
+	}
+	for _, gc := range GeneratedConvs(sc) {
+		out = append(out, gc.Out...)
+	}
+	return out
+}
+
 // GeneratedConvs lists the converters the scenario's "conv"-mode generators
 // emit: one per generator and per (type, subtype) among the vertices a
 // generator is shown.
